@@ -11,7 +11,7 @@
     which branch is the one proved for the current tree. *)
 Require Import String List NArith ZArith.
 Require Import PPLV.Codec.Tok PPLV.Codec.Num PPLV.Codec.Status PPLV.Codec.Rows PPLV.Codec.Mats
-               PPLV.Codec.Objs PPLV.Codec.Thms.
+               PPLV.Codec.Objs PPLV.Codec.Thms PPLV.Codec.Float.
 Import ListNotations.
 
 (** ** Status words: every one of the 2^n flag combinations *)
@@ -224,3 +224,17 @@ Proof. exact grid_into. Qed.
 Definition roundtrip_into_any_Grid_full : Prop :=
   forall tgt tk g rest, in_range grid_class tgt -> wf_grid tk g ->
   load_grid tgt tk (dump_grid g rest) = Some (g, rest).
+
+(** ** Floating-point matrix entries (BD_Shape<double>, Octagonal_Shape<double>): how
+    [Checked::float_mpq_to_string] prints the dyadic rational n / 2^k and whether that text reads
+    back to the same value.  Refuted by -1/16, printed "0.-625"; on the bounded range below the
+    text reads back EXACTLY when the misprint condition (negative, fewer digits than decimals)
+    does not hold.  The unbounded statement is [float_print_full] (not proved). *)
+Theorem float_entry_roundtrip_refuted :
+  float_mpq_to_string (-1) 4 = "0.-625"%string /\ reads_back (-1) 4 = false.
+Proof. exact float_print_refuted. Qed.
+Theorem float_entry_roundtrip_bounded_partial : forall i k, (i < 256)%nat -> (k <= 12)%nat ->
+  let a := (2 * Z.of_nat i + 1)%Z in
+  reads_back a k = negb (misprinted a k) /\ reads_back (- a) k = negb (misprinted (- a) k).
+Proof. exact float_print_bounded. Qed.
+Definition float_entry_roundtrip_full : Prop := float_print_full.
